@@ -4,7 +4,7 @@
    toks? = [] when get_lexer_by_name raises ClassNotFound, else [[tok, tok, ...]]: the token texts
    the Pygments lexer (built with the call-site options of the tree under test) produced for the
    tab-expanded code -- the lexer is an oracle, its output is an input of the model. *)
-From RichModel Require Import Prelude Cells Syntax SpecSyntax SyntaxWrap.
+From RichModel Require Import Prelude Cells Syntax SpecSyntax SyntaxWrap SyntaxTb.
 
 Definition tRange (t : tree) : option (Z * Z) :=
   match tL t with a :: b :: _ => Some (tZ a, tZ b) | _ => None end.
@@ -22,7 +22,46 @@ Definition ofLinesR (r : res (list str)) : tree :=
 Definition spec_op (f : opts -> str -> Z -> list str -> bool) (t : tree) : tree :=
   ofB (f (tOpts t) (tStr (tNth t 0)) (tW t) (tOut t)).
 
+(* one Traceback render: [files, cwd, entries, extra, transparent, guides, W]
+   file = [name, present, content, toks]; entry = [co_filename, tb_lineno] *)
+Definition tFile (t : tree) : str * (bool * (str * list str)) :=
+  (tStr (tNth t 0), (tB (tNth t 1), (tStr (tNth t 2), tList tStr (tNth t 3)))).
+Fixpoint find_file (fs : list (str * (bool * (str * list str)))) (f : str) : option (bool * (str * list str)) :=
+  match fs with
+  | [] => None
+  | (n, x) :: r => if str_eqb f n then Some x else find_file r f
+  end.
+Definition ofBlock (av : Z) (x : frame * block) : tree :=
+  let '(fr, b) := x in
+  match b with
+  | BSkipped => L [I (fr_lineno fr); I 1; L []]
+  | BError => L [I (fr_lineno fr); I 2; L []]
+  | BCode ls => L [I (fr_lineno fr); I 0;
+                   ofList ofStr (map (fun l => rstrip_sp (if av <? cell_len l then set_cell_size l av else l)) ls)]
+  end.
+Definition tb_render (t : tree) : tree :=
+  let fs := tList tFile (tNth t 0) in
+  let read := fun f => match find_file fs f with Some (true, (c, _)) => Some c | _ => None end in
+  let lexsel := fun f (_ : str) =>
+    match find_file fs f with
+    | Some (_, (_, toks)) => Some (true, fun _ : str => map (fun s => (0, s)) toks)
+    | None => None
+    end in
+  let frames := map (extract_frame (tStr (tNth t 1)))
+                    (tList (fun e => mkEntry (tStr (tNth e 0)) (tZ (tNth e 1)) []) (tNth t 2)) in
+  match render_stack read lexsel current_facts wrapf_text (tZ (tNth t 3)) false (tB (tNth t 4)) (tB (tNth t 5))
+                     (tZ (tNth t 6)) frames with
+  | Ok l => ofList (ofBlock (tZ (tNth t 6) - 4)) l
+  | _ => I (-1)
+  end.
+
 Definition ops : list (string * (tree -> tree)) := [
+  (* several Traceback renders in one process, the files possibly rewritten in between *)
+  ("tbtwice", fun t => ofList tb_render (tL t));
+  (* [file, content?, lineno, W, guides, kind, lines] *)
+  ("spec.block_ok", fun t =>
+      ofB (block_ok_b (tStr (tNth t 0)) (tOpt tStr (tNth t 1)) (tZ (tNth t 2)) (tZ (tNth t 3) - 4) (tB (tNth t 4))
+                      (tZ (tNth t 5)) (tList tStr (tNth t 6))));
   ("render", fun t =>
       ofLinesR (render (tLex (tNth t 1)) current_facts wrapf_text (tOpts t) (tStr (tNth t 0)) (tW t)));
   (* [code, toks?, range?] -> plain text of Syntax.highlight(code, range) *)
